@@ -374,6 +374,30 @@ func (r *Run) probe(c *Call) []*Violation {
 			r.Stats.Inc("oracle/C19/probe/receiver_varied")
 		}
 	}
+	if c.Mode&4 == 4 && op.Bytes && len(o.B) > 0 && !op.Dynamic {
+		// flush: half of the probes of byte-taking operations first issue the same
+		// operation on an unrelated input of the same length (fresh receiver, fresh
+		// buffer). A small memo that answered the recorded call from a stale entry
+		// must now compute - and a pure function computes the recorded result again.
+		fl := &Operands{U: cc.U, C: cc.C}
+		switch op.Recv {
+		case KPoint:
+			fl.RP = new(edwards25519.Point)
+		case KScalar:
+			fl.RS = new(edwards25519.Scalar)
+		case KElem:
+			fl.RE = new(field.Element)
+		}
+		fb := make([]byte, len(o.B))
+		pat := prng.New(c.Mode>>3 | 1)
+		for i := range fb {
+			fb[i] = byte(pat.Uint64())
+		}
+		fb[len(fb)-1] &= 0x0f // below l / below 2^252: accepted by the canonical setters too
+		fl.B, fl.Backing = fb, fb
+		op.run(fl)
+		r.Stats.Inc("oracle/C19/probe/flushed")
+	}
 	out := op.run(o)
 	if op.Ctor && out.Ret != nil {
 		// mirror what the harness did at record time: copy into the receiver
